@@ -91,7 +91,7 @@ class C04Stream(M.MatStream):
     def labels(self, case, obs):
         out = super().labels(case, obs)
         s = M.cur_sys(case)
-        live = list(M.live_proposals(case["events"]).values())
+        live = list(M.live_proposals(case["events"], case.get("max_age8", 480)).values())
         if s["incl"] is not None and M.wf_sys(s) and live:
             _, _, ok = ideal(s, live)
             out.append("conflict_free" if ok else "conflicting")
@@ -105,7 +105,7 @@ class C04Stream(M.MatStream):
         systems = [case["sys"]] + [e["sys"] for e in case["events"] if e["t"] == "b"]
         if any(x["incl"] is None and x["excl"] is None for x in systems):
             return out
-        live = list(M.live_proposals(case["events"]).values())
+        live = list(M.live_proposals(case["events"], case.get("max_age8", 480)).values())
         if not live or not case["events"] or case["events"][-1]["t"] == "b":
             return out
         final = obs["targets"][-1]
